@@ -23,6 +23,13 @@ class HTagC(UniqueTag):
 
 
 @dataclasses.dataclass(frozen=True)
+class HTagD(Tag):
+    """several of these can sit on one object; their hashes (and with them the
+    iteration order of the tag set) follow the interpreter's hash seed"""
+    text: str
+
+
+@dataclasses.dataclass(frozen=True)
 class HTagSet(Tag):
     """a tag whose payload is itself a set (print order follows the hash seed)"""
     items: frozenset
@@ -58,6 +65,8 @@ def _make_tag(spec):
         return HTagB(int(spec[1]))
     if kind == "c":
         return HTagC(str(spec[1]))
+    if kind == "d":
+        return HTagD(str(spec[1]))
     if kind == "set":
         return HTagSet(frozenset(spec[1]))
     raise ValueError(spec)
@@ -69,8 +78,11 @@ def draw_tag(rng, codegen_safe=True):
         return ["stored"]
     if k < 0.45:
         return ["a"]
-    if k < 0.7:
+    if k < 0.6:
         return ["b", rng.randint(0, 3)]
+    if k < 0.72:
+        return ["d", rng.choice(["alpha", "beta", "gamma", "delta", "eps",
+                                 "zeta", "eta", "theta"])]
     if k < 0.8:
         return ["c", rng.choice(["u", "v", "w"])]
     if k < 0.9:
